@@ -33,6 +33,17 @@ class ParameterQueryException(Exception):
             "ParameterQueryException: input is not a list of strings"
         self.params = params
 
+def types_overlap(T1, T2):
+    """Whether two types may have a common instance, where the type
+    variables of the two types are independent (structural check: a
+    type variable overlaps with everything).
+
+    """
+    if not T1.is_tconst() or not T2.is_tconst():
+        return True
+    return T1.name == T2.name and len(T1.args) == len(T2.args) and \
+        all(types_overlap(a1, a2) for a1, a2 in zip(T1.args, T2.args))
+
 class Theory:
     """Represents the current state of the theory.
 
@@ -151,6 +162,15 @@ class Theory:
             for _, v in sorted(inst.items()):
                 if not v.is_tconst():
                     raise TheoryException("When overloading %s with %s: cannot instantiate to type variables" % (aT, T))
+
+            # The instances of an overloaded constant must be pairwise
+            # non-overlapping: otherwise two definitions speak about the
+            # same constant at their common instances.
+            prev_insts = self.get_data("overload")[name]
+            for prev_T in prev_insts:
+                if types_overlap(prev_T, T):
+                    raise TheoryException("Constant %s :: %s overlaps with the existing instance %s" % (name, T, prev_T))
+            self.add_data("overload", name, prev_insts + (T,))
         else:
             # Make sure this name does not already occur in the theory
             if self.has_term_sig(name):
@@ -230,7 +250,8 @@ class Theory:
     def add_overload_const(self, name):
         """Add a constant as an overloaded constant."""
         data = self.get_data("overload")
-        data[name] = True
+        if name not in data:
+            data[name] = tuple()  # types of the instances added so far
 
     def is_overload_const(self, name):
         """Whether the given name is an overloaded constant."""
